@@ -336,6 +336,8 @@ def _sweep(chk, tier):
         if R.ok:
             if type(R.r) is float:
                 obs = ("ok", "pyfloat", 8)
+            elif type(R.r) is complex:
+                obs = ("ok", "pycomplex", 16)
             else:
                 rd = np.asarray(R.r).dtype
                 obs = ("ok", rd.kind, rd.itemsize)
@@ -351,7 +353,15 @@ def _sweep(chk, tier):
                 chk.fail(key, f"{name} on {d.name} {shape} raised {exc_class(R.exc)}; {ed.name} data required",
                          {"python": snippet(setup, call + "assert True\n"), "dtype": d.name, "route": name, "error": repr(R.exc)[:200]})
             return R
-        if type(R.r) is float:
+        if type(R.r) is complex:
+            # to_value on a complex quantity: a Python complex (binary64 components)
+            if not (kclass == "to_value" and isq and ed.kind == "c" and ed.itemsize <= 16):
+                chk.fail(f"dtype|to_value|quantity|{cls}|complex", f"to_value on a {d.name} quantity returned a Python complex (53-bit components)",
+                         {"python": snippet(setup, "try:\n    " + call.strip() + "\nexcept Exception:\n    r = None\n" + "assert not isinstance(r, complex), type(r)\n"), "dtype": d.name})
+                return R
+            got_dtype = np.dtype("c16")
+            size = comp_size(ed)
+        elif type(R.r) is float:
             # to_value on a quantity: a Python float (binary64); fine when the expected float fits in it
             if not (kclass == "to_value" and isq and ed.kind == "f" and ed.itemsize <= 8):
                 chk.fail(f"dtype|to_value|quantity|{cls}|float", f"to_value on a {d.name} quantity returned a Python float",
@@ -408,8 +418,8 @@ def _sweep(chk, tier):
             p = PREC[got_dtype.itemsize]
             bad = [int(v) for v in np.atleast_1d(R.x_before).ravel() if not exact_in(p, int(v))]
             if bad and not R.warn_runtime:
-                if kclass in ("copy", "inplace", "to_value"):
-                    why = "threshold-value" if all(abs(v) == 2 ** p + 1 for v in bad) else ("float16" if got_dtype.itemsize == 2 else "general")
+                if kclass in ("copy", "inplace", "to_value", "in_base"):
+                    why = "float16" if got_dtype.itemsize == 2 else ("threshold-value" if all(abs(v) == 2 ** p + 1 for v in bad) else "general")
                 else:
                     why = "no-check"
                 kc = "copy" if kclass == "to_value" else kclass
@@ -419,9 +429,9 @@ def _sweep(chk, tier):
                           + "assert any(issubclass(m.category, RuntimeWarning) for m in w), 'no RuntimeWarning'\n",
                           "dtype": d.name, "route": name, "value": bad[0]})
             # model: unyt's own LARGE_INPUT warning
-            if kclass in ("copy", "inplace", "to_value"):
+            if kclass in ("copy", "inplace", "to_value", "in_base"):
                 vs = ",".join(str(int(v)) for v in np.atleast_1d(R.x_before).ravel())
-                ask(["c17.warn", "inplace" if kclass == "inplace" else "copy", d.kind, d.itemsize, vs], ("warn", name, d.name, vs[:60], 1 if R.warn_unyt else 0))
+                ask(["c17.warn", {"inplace": "inplace", "in_base": "inbase"}.get(kclass, "copy"), d.kind, d.itemsize, vs], ("warn", name, d.name, vs[:60], 1 if R.warn_unyt else 0))
         return R
 
     pairs = PAIRS if quick else PAIRS + [
